@@ -601,3 +601,39 @@ func genSem(n int) {
 		emitQ(join(t.words(func() bool { return rng.Intn(4) == 0 }), rng.Intn(2)), "", "src=sem")
 	}
 }
+
+// ---- near misses: every single-token substitution, insertion and deletion of every small query form ------------------
+
+var nearForms = [][]string{
+	{"a", ":", "b"}, {"a", "=", "5"}, {"a", ":", ">", "5"}, {"a", ":", "<", "=", "5"}, {"a", ":", "[", "1", "TO", "5", "]"}, {"a", ":", "{", "b", "TO", "*", "}"},
+	{"a", ":", "(", "x", "OR", "y", ")"}, {"a", "AND", "b"}, {"a", "OR", "b", "AND", "c"}, {"NOT", "a"}, {"+", "a", "-", "b"}, {"a", "~", "2"}, {"a", "^", "2.5"},
+	{"(", "a", ")"}, {"a", ":", "b", "c", ":", "d"}, {"a", ":", "w*"}, {"a", ":", `"q r"`}, {"a", ":", "/r/"}, {"a", "~"}, {"(", "a", "OR", "b", ")", "^", "2"},
+}
+
+func genNearMiss() {
+	emit := func(w []string) {
+		q := strings.Join(w, " ")
+		emitQ(q, "", "src=nearmiss")
+		emitQ(q, "d", "src=nearmiss")
+	}
+	for _, f := range nearForms {
+		emit(f)
+		for i := 0; i <= len(f); i++ {
+			for _, s := range enumAlphabet {
+				ins := append(append(append([]string{}, f[:i]...), s), f[i:]...)
+				emit(ins)
+				if i < len(f) {
+					sub := append([]string{}, f...)
+					sub[i] = s
+					emit(sub)
+				}
+			}
+			if i < len(f) {
+				del := append(append([]string{}, f[:i]...), f[i+1:]...)
+				if len(del) > 0 {
+					emit(del)
+				}
+			}
+		}
+	}
+}
